@@ -333,6 +333,39 @@ def check_ensure(ctx: Ctx, rule: str) -> None:
            construct=construct(f, 'guard:create parents only if missing'), detail='; '.join(norm(n.stmt, 70) for n in over[:2]))
 
 
+def _eval_len(t: ast.AST, PATH: str, n: int) -> Optional[bool]:
+    """Truth value of a condition over `len(PATH)` / the truthiness of PATH for a path of n segments; None if it is about something else."""
+    if isinstance(t, ast.UnaryOp) and isinstance(t.op, ast.Not):
+        v = _eval_len(t.operand, PATH, n)
+        return None if v is None else not v
+    if isinstance(t, ast.BoolOp):
+        vs = [_eval_len(v, PATH, n) for v in t.values]
+        if isinstance(t.op, ast.And):
+            return False if any(v is False for v in vs) else None if any(v is None for v in vs) else True
+        return True if any(v is True for v in vs) else None if any(v is None for v in vs) else False
+    if _is_name(t, PATH):
+        return n > 0
+    if isinstance(t, ast.Compare) and len(t.ops) == 1:
+        def val(e: ast.AST) -> Optional[int]:
+            if isinstance(e, ast.Call) and dotted(e.func) == 'len' and len(e.args) == 1 and _is_name(e.args[0], PATH):
+                return n
+            return _int(e)
+        a, b = val(t.left), val(t.comparators[0])
+        if a is None or b is None:
+            return None
+        op = t.ops[0]
+        return {ast.Eq: a == b, ast.NotEq: a != b, ast.Lt: a < b, ast.LtE: a <= b, ast.Gt: a > b, ast.GtE: a >= b}.get(type(op))
+    return None
+
+
+def _len_allows(conds: list, PATH: str, n: int) -> bool:
+    for t, o, _ in conds:
+        v = _eval_len(t, PATH, n)
+        if v is not None and v != o:
+            return False
+    return True
+
+
 # ====================================================================================================== dicts.remove
 def check_remove(ctx: Ctx, rule: str) -> None:
     repo = ctx.repo
@@ -348,27 +381,29 @@ def check_remove(ctx: Ctx, rule: str) -> None:
     ctx.ob(rule, 'remove: on every level only the key of the first remaining segment is deleted from the dict at hand', bool(dels) and not wrong,
            loc=f.loc(wrong[0].stmt) if wrong else f.loc(), construct=construct(f, 'flow:del d[path[0]] only'), detail='; '.join(norm(n.stmt) for n in wrong[:2]))
 
-    def single(e: ast.AST, o: bool) -> bool:
-        if isinstance(e, ast.Compare) and len(e.ops) == 1 and isinstance(e.ops[0], ast.Eq) and o is True:
-            l, r = e.left, e.comparators[0]
-            for a, b in ((l, r), (r, l)):
-                if isinstance(a, ast.Call) and dotted(a.func) == 'len' and len(a.args) == 1 and _is_name(a.args[0], PATH) and _int(b) == 1:
-                    return True
-        return False
-    leaf = [n for n in dels if holds_at(g, n, single)]
+    recs = [n for n in g.nodes if n.kind == 'stmt' and any(is_call_to(repo, f, c, f.qualname) for c in calls_in(n.stmt))]
+    ctx.require_sites(rule, 'remove: recursion into the parent of a nested field', len(recs), 1, f.loc())
+    after_rec = g.reach(recs)
+    leaf = [n for n in dels if n not in after_rec]
     ctx.require_sites(rule, 'remove: deletion of the target key itself (single remaining segment)', len(leaf), 1, f.loc())
     for n in leaf:
         hs = [h for h in _handlers_for(g, 'KeyError') if h in g.reach([n])]
         quiet = 'lookup' in n.exc_edges and bool(hs) and all(not g.escaping_exits([h], [], classes=('exc',)) for h in hs)
         ctx.ob(rule, 'remove: deleting a key that is already absent is not an error (purging a purged record, clearing an essence without the field)',
                quiet, loc=f.loc(n.stmt), construct=construct(f, 'allexits:absent key tolerated'))
-    recs = [n for n in g.nodes if n.kind == 'stmt' and any(is_call_to(repo, f, c, f.qualname) for c in calls_in(n.stmt))]
-    ctx.require_sites(rule, 'remove: recursion into the parent of a nested field', len(recs), 1, f.loc())
+        conds = dominating_conditions(g, n)
+        ctx.ob(rule, 'remove: the key itself is deleted exactly when ONE segment remains -- with more segments left the first one is a parent (`status` of '
+               '`status.kopf.progress`) and must only be walked into', _len_allows(conds, PATH, 1) and not _len_allows(conds, PATH, 2) and not _len_allows(conds, PATH, 3),
+               loc=f.loc(n.stmt), construct=construct(f, 'guard:leaf deletion iff one segment'), detail='; '.join(f'{norm(t, 50)}={o}' for t, o, _ in conds))
     for n in recs:
         c = [c for c in calls_in(n.stmt) if is_call_to(repo, f, c, f.qualname)][0]
         a0 = c.args[0] if c.args else kwarg(c, D)
         a1 = c.args[1] if len(c.args) > 1 else kwarg(c, FIELD)
         ok = first_level(a0) and _slice(_unwrap(repo, f, a1), PATH, 1, None)
+        conds = dominating_conditions(g, n)
+        ctx.ob(rule, 'remove: the recursion into the parent is taken for every path of two or more segments (and not for a single one)',
+               _len_allows(conds, PATH, 2) and _len_allows(conds, PATH, 3) and not _len_allows(conds, PATH, 1), loc=f.loc(c),
+               construct=construct(f, 'guard:recursion iff nested'), detail='; '.join(f'{norm(t, 50)}={o}' for t, o, _ in conds))
         ctx.ob(rule, 'remove: a nested field is removed from `d[path[0]]` with the remaining segments `path[1:]`', ok, loc=f.loc(c),
                construct=construct(f, 'flow:recurse(d[path[0]], path[1:])'), detail=norm(c))
         hs = [h for h in _handlers_for(g, 'KeyError') if h in g.reach([n])]
@@ -688,37 +723,54 @@ def check_reduce(ctx: Ctx, rule: str) -> None:
     OP, FIELD, OLD, NEW = [e.id for e in loop.target.elts]
     roles = {OP: 'OP', FIELD: 'FIELD', OLD: 'OLD', NEW: 'NEW', PATH: 'PATH'}
 
-    class _N(ast.NodeTransformer):
-        def visit_Name(self, n: ast.Name) -> ast.AST:
-            if n.id in roles:
-                return ast.Name(roles[n.id], n.ctx)
-            o = origin(f, n, depth=1)
-            if o is not n and not isinstance(o, ast.Name):
-                return self.visit(_copy(o))
-            return n
+    def T(e: Optional[ast.AST], depth: int = 0) -> Any:
+        """Structural term of an expression over the roles OP/FIELD/OLD/NEW/PATH (tuple()/list() wrappers and single-assignment locals looked through)."""
+        e = _unwrap(repo, f, e)
+        if e is None or depth > 6:
+            return ('?',)
+        if isinstance(e, ast.Name):
+            if e.id in roles:
+                return roles[e.id]
+            o = origin(f, e, depth=1)
+            return T(o, depth + 1) if o is not e else ('?', e.id)
+        if isinstance(e, ast.Constant) and e.value is None:
+            return ('none',)
+        if isinstance(e, ast.Tuple) and not e.elts:
+            return ('empty',)
+        if isinstance(e, ast.Constant) and isinstance(e.value, int):
+            return ('int', e.value)
+        if isinstance(e, ast.Call) and dotted(e.func) == 'len' and len(e.args) == 1:
+            return ('len', T(e.args[0], depth + 1))
+        if isinstance(e, ast.Subscript) and isinstance(e.slice, ast.Slice) and e.slice.step is None:
+            lo, up = e.slice.lower, e.slice.upper
+            if lo is None and up is not None and isinstance(T(up, depth + 1), tuple) and T(up, depth + 1)[0] == 'len':
+                return ('prefix', T(e.value, depth + 1), T(up, depth + 1)[1])
+            if up is None and lo is not None and isinstance(T(lo, depth + 1), tuple) and T(lo, depth + 1)[0] == 'len':
+                return ('suffix', T(e.value, depth + 1), T(lo, depth + 1)[1])
+        if isinstance(e, ast.Call) and is_call_to(repo, f, e, f'{DICTS}.resolve'):
+            d = e.args[2] if len(e.args) > 2 else kwarg(e, 'default')
+            return ('resolve', T(e.args[0], depth + 1) if e.args else ('?',), T(e.args[1], depth + 1) if len(e.args) > 1 else ('?',), T(d, depth + 1) if d is not None else ('unset',))
+        return ('?', type(e).__name__)
 
-        def visit_Call(self, n: ast.Call) -> ast.AST:
-            if dotted(n.func) in ('tuple', 'list') and len(n.args) == 1 and not n.keywords:
-                return self.visit(n.args[0])
-            return self.generic_visit(n)
-
-    def _copy(e: ast.AST) -> ast.AST:
-        import copy
-        return copy.deepcopy(e)
-
-    def N(e: Optional[ast.AST]) -> str:
-        return src(_N().visit(_copy(e)), 300) if e is not None else ''
+    def eq_sides(e: ast.AST) -> Optional[set]:
+        if isinstance(e, ast.Compare) and len(e.ops) == 1 and isinstance(e.ops[0], ast.Eq):
+            return {T(e.left), T(e.comparators[0])}
+        return None
 
     def classify(test: ast.AST, outcome: bool) -> Optional[str]:
-        t = N(test)
-        if outcome and t in ('not PATH', 'len(PATH) == 0', 'PATH == ()', '() == PATH'):
-            return 'ROOT'
-        if not outcome and t in ('PATH', 'len(PATH) > 0', 'len(PATH) != 0'):
-            return 'ROOT'
-        if outcome and t in ('FIELD[:len(PATH)] == PATH', 'PATH == FIELD[:len(PATH)]'):
-            return 'LONGER'
-        if outcome and t in ('FIELD == PATH[:len(FIELD)]', 'PATH[:len(FIELD)] == FIELD'):
-            return 'SHORTER'
+        def root(e: ast.AST, o: bool) -> bool:
+            if T(e) == 'PATH':
+                return o is False
+            return eq_sides(e) in ({('len', 'PATH'), ('int', 0)}, {'PATH', ('empty',)}) and o is True
+
+        def longer(e: ast.AST, o: bool) -> bool:
+            return eq_sides(e) == {('prefix', 'FIELD', 'PATH'), 'PATH'} and o is True
+
+        def shorter(e: ast.AST, o: bool) -> bool:
+            return eq_sides(e) == {'FIELD', ('prefix', 'PATH', 'FIELD')} and o is True
+        for kind, pred in (('ROOT', root), ('LONGER', longer), ('SHORTER', shorter)):
+            if cond_implies(test, outcome, pred) and not isinstance(test, ast.BoolOp):
+                return kind
         return None
     found: dict[str, list] = {}
     unknown = []
@@ -734,35 +786,27 @@ def check_reduce(ctx: Ctx, rule: str) -> None:
            'unrelated to the path are dropped', not unknown, loc=f.loc(unknown[0]) if unknown else f.loc(), construct=construct(f, 'formula:three cases only'),
            detail='; '.join(norm(y, 60) for y in unknown[:2]))
 
-    def item_args(y: ast.AST) -> Optional[list[str]]:
+    def item_args(y: ast.AST) -> Optional[list]:
         v = y.value
         if isinstance(y, ast.Yield) and isinstance(v, ast.Call) and is_call_to(repo, f, v, f'{DIFFS}.DiffItem') and len(v.args) == 4 and not v.keywords:
-            return [N(a) for a in v.args]
+            return [T(a) for a in v.args]
         return None
     ys = found.get('ROOT', [])
     ctx.ob(rule, 'reduce_iter: without a path (whole-object handlers) every item is passed on as it is', len(ys) == 1 and item_args(ys[0]) == ['OP', 'FIELD', 'OLD', 'NEW'],
            loc=f.loc(ys[0]) if ys else f.loc(), construct=construct(f, 'formula:root as-is'), detail='; '.join(norm(y, 80) for y in ys) or 'no such case')
     ys = found.get('LONGER', [])
     ctx.ob(rule, 'reduce_iter: an item at or below the handler\'s field (item field starts with the path) keeps op/old/new and gets the path prefix '
-           'stripped (`field[len(path):]`)', len(ys) == 1 and item_args(ys[0]) == ['OP', 'FIELD[len(PATH):]', 'OLD', 'NEW'], loc=f.loc(ys[0]) if ys else f.loc(),
+           'stripped (`field[len(path):]`)', len(ys) == 1 and item_args(ys[0]) == ['OP', ('suffix', 'FIELD', 'PATH'), 'OLD', 'NEW'], loc=f.loc(ys[0]) if ys else f.loc(),
            construct=construct(f, 'formula:strip prefix'), detail='; '.join(norm(y, 80) for y in ys) or 'no such case (test `field[:len(path)] == path`)')
     ys = found.get('SHORTER', [])
     ok = len(ys) == 1 and isinstance(ys[0], ast.YieldFrom) and isinstance(ys[0].value, ast.Call) and is_call_to(repo, f, ys[0].value, f'{DIFFS}.diff_iter')
     why = 'no such case (test `field == path[:len(field)]`)' if not ys else ''
     if ok:
         c = ys[0].value
-        args = [N(a) for a in c.args]
-        want = ['kopf._cogs.structs.dicts.resolve(OLD, PATH[len(FIELD):], default=None)', 'kopf._cogs.structs.dicts.resolve(NEW, PATH[len(FIELD):], default=None)']
-
-        def canon(a: ast.AST) -> str:
-            a = _unwrap(repo, f, a, follow=True)
-            if isinstance(a, ast.Call) and is_call_to(repo, f, a, f'{DICTS}.resolve'):
-                d = a.args[2] if len(a.args) > 2 else kwarg(a, 'default')
-                return f'kopf._cogs.structs.dicts.resolve({N(a.args[0]) if a.args else ""}, {N(a.args[1]) if len(a.args) > 1 else ""}, default={N(d) if d is not None else "<none>"})'
-            return N(a)
-        args = [canon(a) for a in c.args]
-        ok = args == want and not c.keywords
-        why = '' if ok else f'diff_iter({", ".join(args)}{", ..." if c.keywords else ""})'
+        tail = ('suffix', 'PATH', 'FIELD')
+        args = [T(a) for a in c.args]
+        ok = args == [('resolve', 'OLD', tail, ('none',)), ('resolve', 'NEW', tail, ('none',))] and not c.keywords
+        why = '' if ok else f'diff_iter called with {args}{" and keywords" if c.keywords else ""}'
     ctx.ob(rule, 'reduce_iter: an item above the handler\'s field (whole parent added/removed/changed) is re-diffed between the tails of ITS old and new '
            'values (`resolve(old, path[len(field):], None)` -> `resolve(new, ...)`, in this order, full scope, relative paths)', ok,
            loc=f.loc(ys[0]) if ys else f.loc(), construct=construct(f, 'formula:re-diff tails old->new'), detail=why)
@@ -955,6 +999,34 @@ def check_as_json_patch(ctx: Ctx, rule: str) -> None:
     ctx.ob(rule, 'as_json_patch: the result is the op list of that diff (or nothing for an empty patch)', bool(ops_rets) and not other,
            loc=f.loc(other[0].stmt) if other else f.loc(), construct=construct(f, 'flow:return from_diff(...).patch'), detail='; '.join(norm(n.stmt) for n in other[:2]))
 
+    # which body is the reference: the one given explicitly (patch_obj passes the freshest one, whose resourceVersion the test op pins) wins
+    BODY = 'body' if 'body' in [a.arg for a in f.params()] else None
+    if BODY is None:
+        raise AnalysisError(f'{f.loc()}: as_json_patch(body) expected')
+
+    def eff(it: Any, p: Any, call: ast.Call, names: set) -> Optional[str]:
+        return 'diff' if call is fd else None
+    paths = absint.analyse(repo, f, absint.Config(effect=eff))
+    ctx.count('paths', len(paths))
+    wrong = []
+    seen = set()
+    for p in paths:
+        given = p.atom(rf'^isnone\({BODY}\)$')
+        for e in p.effects('diff'):
+            ref = e.kw.get('#0') or e.kw.get('src')
+            k = ref.key if ref is not None else ''
+            uses_given, uses_orig = bool(re.search(rf'\b{BODY}\b', k)), '_original' in k
+            seen.add(given)
+            if given is False and (uses_orig or not uses_given):
+                wrong.append(f'a body was given, but the reference is `{k[:70]}`')
+            elif given is True and not uses_orig:
+                wrong.append(f'no body was given, but the reference is `{k[:70]}`')
+            elif given is None:
+                wrong.append(f'the reference `{k[:70]}` is chosen without testing whether a body was given (`is None`)')
+    ctx.ob(rule, 'as_json_patch(body): the reference the ops are computed against is the body given by the caller whenever one is given (decided by '
+           '`is None`), else the body the patch was created for -- patch_obj passes the freshest body, the one whose resourceVersion its test op pins',
+           not wrong and seen == {True, False}, loc=f.loc(), construct=construct(f, 'table:reference = given body, else original'), detail=' | '.join(dict.fromkeys(wrong)))
+
     def is_empty(e: ast.AST, o: bool) -> bool:
         return _is_name(e, 'self') and o is False
     raises = [n for n in g.nodes if n.kind == 'raise']
@@ -1034,6 +1106,58 @@ def check_empty_stanzas(ctx: Ctx, rule: str) -> None:
         ctx.ob(rule, f'remove_empty_stanzas: the sub-stanzas of `{".".join(parent)}` are dropped BEFORE its own emptiness is judged (else '
                f'`{parent[0]}: {{annotations: {{}}}}` leaves an empty `{parent[0]}: {{}}` behind)', not late and bool(ifs), loc=f.loc(late[0].stmt) if late else f.loc(),
                construct=construct(f, f'order:children of {".".join(parent)} first'))
+
+
+def check_remove_annotations(ctx: Ctx, rule: str) -> None:
+    """Beyond R4.1 (the comprehension's filter): what is rewritten, from what, and under which guard."""
+    repo = ctx.repo
+    f, g = cfg_of(ctx, f'{CONV}.StorageStanzaCleaner.remove_annotations')
+    ESS, KEYS = _params(f, 2)[:2]
+    writes = [n for n in g.nodes if n.kind == 'stmt' and isinstance(n.stmt, ast.Assign) and any(isinstance(t, ast.Subscript) for t in n.stmt.targets)]
+    ctx.require_sites(rule, 'remove_annotations: rewrite of the annotations of the essence', len(writes), 1, f.loc())
+    for n in writes:
+        tgt_ok = all(_keypath(f, t, ESS) == ('metadata', 'annotations') for t in n.stmt.targets)
+        comp = n.stmt.value
+        src_ok = False
+        if isinstance(comp, ast.DictComp) and len(comp.generators) == 1:
+            it = comp.generators[0].iter
+            tg = comp.generators[0].target
+            src_ok = isinstance(it, ast.Call) and isinstance(it.func, ast.Attribute) and it.func.attr == 'items' \
+                and _keypath(f, it.func.value, ESS) == ('metadata', 'annotations') and isinstance(tg, ast.Tuple) and len(tg.elts) == 2 \
+                and _is_name(comp.key, getattr(tg.elts[0], 'id', None)) and _is_name(comp.value, getattr(tg.elts[1], 'id', None))
+        ctx.ob(rule, 'remove_annotations rewrites `metadata.annotations` of the essence from its own current annotations, keys and values unchanged', tgt_ok and src_ok,
+               loc=f.loc(n.stmt), construct=construct(f, 'flow:annotations rebuilt from annotations'), detail=norm(n.stmt, 100))
+
+        def keyset(e: ast.AST) -> Optional[str]:
+            e = _unwrap(repo, f, e, follow=True)
+            while isinstance(e, ast.Call) and dotted(e.func) in ('frozenset', 'set') and len(e.args) == 1:
+                e = _unwrap(repo, f, e.args[0], follow=True)
+            if _is_name(e, KEYS):
+                return 'remove'
+            if _keypath(f, e, ESS) == ('metadata', 'annotations'):
+                return 'current'
+            return None
+
+        def overlap(e: ast.AST, o: bool) -> bool:
+            if isinstance(e, ast.BinOp) and isinstance(e.op, ast.BitAnd):
+                return {keyset(e.left), keyset(e.right)} == {'remove', 'current'} and o is True
+            if isinstance(e, ast.Call) and isinstance(e.func, ast.Attribute) and len(e.args) == 1:
+                sides = {keyset(e.func.value), keyset(e.args[0])}
+                if e.func.attr == 'intersection':
+                    return sides == {'remove', 'current'} and o is True
+                if e.func.attr == 'isdisjoint':
+                    return sides == {'remove', 'current'} and o is False
+            return False
+        conds = dominating_conditions(g, n)
+        ok = all(cond_implies(t, o, overlap) for t, o, _ in conds)
+        ctx.ob(rule, 'remove_annotations: the rewrite happens whenever ANY of the keys to remove is present (the only guard is a non-empty intersection) -- '
+               'make_keys yields a v2 and a v1 key of which an object usually carries one', ok, loc=f.loc(n.stmt), construct=construct(f, 'guard:any key present'),
+               detail='; '.join(f'{norm(t, 70)}={o}' for t, o, _ in conds))
+
+
+def check_stanza_cleaner(ctx: Ctx, rule: str) -> None:
+    check_empty_stanzas(ctx, rule)
+    check_remove_annotations(ctx, rule)
 
 
 # ====================================================================================================== diffbase: DiffBaseStorage.build
@@ -1277,7 +1401,7 @@ def check_parse_field(ctx: Ctx, rule: str) -> None:
 # ====================================================================================================== registration
 EXTRA = {
     'C04': [(check_resolve, 'R4.40'), (check_remove, 'R4.41'), (check_cherrypick, 'R4.42'), (check_views, 'R4.43'), (check_wiring, 'R4.44'),
-            (check_diff_equal, 'R4.45'), (check_reduce, 'R4.46'), (check_empty_stanzas, 'R4.47'), (check_build_flow, 'R4.48'), (check_storage_ctors, 'R4.49')],
+            (check_diff_equal, 'R4.45'), (check_reduce, 'R4.46'), (check_stanza_cleaner, 'R4.47'), (check_build_flow, 'R4.48'), (check_storage_ctors, 'R4.49')],
     'C16': [(check_resolve, 'R16.40'), (check_ensure, 'R16.41'), (check_remove, 'R16.42'), (check_views, 'R16.43'), (check_wiring, 'R16.44'),
             (check_build_flow, 'R16.45'), (check_mark_key, 'R16.46'), (check_storage_ctors, 'R16.47'), (check_parse_field, 'R16.48')],
     'C18': [(check_resolve, 'R18.20'), (check_ensure, 'R18.21'), (check_remove, 'R18.22'), (check_as_json_patch, 'R18.23')],
